@@ -2,6 +2,7 @@
 unambiguously: the stand-ins' argv is decoded by reference parsers of the CLIs' own option
 grammars and must give back exactly the generated configuration."""
 import os
+import zlib
 import re
 
 import testrun
@@ -134,7 +135,11 @@ def run_case(env, c, sh):
         else:
             sh.nontrivial.add(("pack-fails", len(c["build"]["buildpacks"])))
         return
-    rc, err, log, left = env.run(scenario)
+    # (a third of the runs that use a preprocessor: the system's temporary directory is an ancestor of the fixture)
+    above = bool(c["build"].get("preprocessor")) and zlib.crc32(repr(sorted(c["build"]["env"])).encode() + b"%d" % len(scenario["builds"])) % 3 == 0
+    rc, err, log, left = env.run(scenario, tmp_above_fixture=above)
+    if above:
+        sh.count("runs_with_tmpdir_above_the_fixture")
     sh.evaluations += 1
     if rc != 0:
         sh.violation("scenario-failed", "%s: the scenario did not complete (exit %r): %s" % (what, rc, err[-400:]), case)
